@@ -75,14 +75,21 @@ DataBytes(lay) ==
 
 ----------------------------------------------------------------------------
 (* field values, possibly corrupted: flt = [k, field, how] *)
+(* kw1 / kw3 / kw5: (for the TEXT begin offset of a 3.x file) moved forward exactly onto the delimiter that precedes the   *)
+(* 2nd / 4th / 6th keyword - the offset keywords are 14, 12, 11, 9, 10 characters long and their values 8 - so that what   *)
+(* follows is a well-formed segment without its first keywords                                                          *)
 Corrupt(v, how) == CASE how = "m1" -> v - 1 [] how = "p1" -> v + 1 [] how = "half" -> v \div 2
-                     [] how = "big" -> 2 * v + 3 [] OTHER -> v
+                     [] how = "big" -> 2 * v + 3
+                     [] how = "kw1" -> v + 24 [] how = "kw3" -> v + 24 + 22 + 21 [] how = "kw5" -> v + 24 + 22 + 21 + 19 + 20
+                     [] OTHER -> v
 FV(flt, field, v) == IF flt.k = "field" /\ flt.field = field THEN Corrupt(v, flt.how) ELSE v
 
+(* numeric keyword values as written: as they are, or padded with blanks on both sides (int() and float() accept both) *)
+NumText(lay, t) == IF lay.knum = "blank" THEN <<SP, SP>> \o t \o <<SP>> ELSE t
 ParPairs(lay, flt) ==
   Concat([p \in 1..Len(lay.widths) |->
-     << <<KeyP(p, 66), ZPad(FV(flt, IF p = 1 THEN "pnb1" ELSE "pnb2", lay.widths[p]), 4)>>,
-        <<KeyP(p, 82), RText(lay.widths[p], lay.rk[p])>>,
+     << <<KeyP(p, 66), NumText(lay, ZPad(FV(flt, IF p = 1 THEN "pnb1" ELSE "pnb2", lay.widths[p]), 4))>>,
+        <<KeyP(p, 82), NumText(lay, RText(lay.widths[p], lay.rk[p]))>>,
         <<KeyP(p, 78), <<97>> \o DigitsOf(p)>>,
         <<KeyP(p, 69), A_LIN>> >>])
 
@@ -128,12 +135,23 @@ OffDTA(lay, tlen, st, nb, at) ==
       ab == IF at = <<>> THEN 0 ELSE te + 1 + Len(st) + lay.pad
       ae == IF at = <<>> THEN 0 ELSE ab + Len(at) - 1
   IN [tb |-> tb, te |-> te, sb |-> sb, se |-> se, db |-> db, de |-> de, st |-> st, ab |-> ab, ae |-> ae, at |-> at]
+OffSTA(lay, tlen, st, nb, at) ==        \* supplemental TEXT physically BEFORE the primary TEXT
+  LET sb == IF st = <<>> THEN 0 ELSE 58 + lay.pad
+      se == IF st = <<>> THEN 0 ELSE sb + Len(st) - 1
+      tb == 58 + lay.pad + Len(st) + lay.pad
+      te == tb + tlen - 1
+      db == te + 1 + lay.pad
+      de == IF lay.endc = "last" THEN db + nb - 1 ELSE db + nb
+      ab == IF at = <<>> THEN 0 ELSE db + nb + lay.pad
+      ae == IF at = <<>> THEN 0 ELSE ab + Len(at) - 1
+  IN [tb |-> tb, te |-> te, sb |-> sb, se |-> se, db |-> db, de |-> de, st |-> st, ab |-> ab, ae |-> ae, at |-> at]
 Offsets(lay) ==
   LET tlen == Len(Encode(TextPairs(lay, NoFault, ZeroOff), SLASH))
       st == IF lay.stext /\ IsV3(lay.ver) THEN EncodeSupp(STextPairs, SLASH) ELSE <<>>
       nb == Len(DataBytes(lay))
       at == IF HasAnalysis(lay) THEN Encode(APairs, SLASH) ELSE <<>>
-  IN IF lay.order = "dta" THEN OffDTA(lay, tlen, st, nb, at) ELSE OffTDA(lay, tlen, st, nb, at)
+  IN IF lay.order = "dta" THEN OffDTA(lay, tlen, st, nb, at)
+     ELSE IF lay.order = "sta" THEN OffSTA(lay, tlen, st, nb, at) ELSE OffTDA(lay, tlen, st, nb, at)
 
 Write(lay, flt) ==
   LET o == Offsets(lay)
@@ -146,6 +164,8 @@ Write(lay, flt) ==
                ELSE IF lay.ver = "2.0" THEN Spaces(16) ELSE RJust(<<48>>, 8) \o RJust(<<48>>, 8))
            \o (IF lay.order = "dta"
                THEN Zeros(lay.pad) \o DataBytes(lay) \o Spaces(lay.pad) \o Encode(TextPairs(lay, flt, o), SLASH) \o o.st
+               ELSE IF lay.order = "sta"
+               THEN Spaces(lay.pad) \o o.st \o Spaces(lay.pad) \o Encode(TextPairs(lay, flt, o), SLASH) \o Zeros(lay.pad) \o DataBytes(lay)
                ELSE Spaces(lay.pad) \o Encode(TextPairs(lay, flt, o), SLASH) \o o.st \o Zeros(lay.pad) \o DataBytes(lay))
            \o (IF o.at = <<>> THEN <<>> ELSE Zeros(lay.pad) \o o.at)
   IN IF flt.k = "trunc" THEN SubSeq(f, 1, flt.at)
